@@ -172,14 +172,8 @@ func (t Token) Validate() error {
 	if err := tokentypes.ValidateInitialSupply(t.InitialSupply); err != nil {
 		return err
 	}
-	if t.MaxSupply < t.InitialSupply {
-		return errorsmod.Wrapf(
-			tokentypes.ErrInvalidMaxSupply,
-			"invalid token max supply %d, only accepts value [%d, %d]",
-			t.MaxSupply,
-			t.InitialSupply,
-			uint64(tokentypes.MaximumMaxSupply),
-		)
-	}
+	// NOTE: max supply >= initial supply is only required when a token is issued (see
+	// MsgIssueToken.ValidateBasic): after burns the owner may lower the max supply below the
+	// initial supply, and such a token must still pass genesis validation.
 	return tokentypes.ValidateScale(t.Scale)
 }
